@@ -210,6 +210,8 @@ class Recorder:
         self.samples = {}
         self.violations = []
         self.disagreements = []
+        self.cov_lines = {}  # kind -> request lines re-executed under line monitoring (coverage sample)
+        self.cov_preds = {}  # kind -> predicate cases re-executed under line monitoring
         self.known = {}  # finding id -> {"reproduces": bool, "count": int, "witness": ...}
         self.notes = []
 
@@ -232,6 +234,12 @@ class Recorder:
 
     def note(self, s):
         self.notes.append(s)
+
+    def cov_pred(self, kind, case):
+        """remember a predicate case for the line-coverage sample"""
+        l = self.cov_preds.setdefault(kind, [])
+        if len(l) < 20:
+            l.append(case)
 
     # -- failures
     def violation(self, kind, case, impl, expected, note="", finding=None):
@@ -264,6 +272,10 @@ class Recorder:
                 finding=None):
         """impl and model are canonical strings.  determined: the model output is what the
         property demands (the model is proved to satisfy the property for this observation)."""
+        if isinstance(case, dict) and "line" in case:
+            l = self.cov_lines.setdefault(kind, [])
+            if len(l) < 40:
+                l.append(case["line"])
         if impl == model:
             self.ok(kind, key if key is not None else _short(case, 200), nontrivial)
             return True
@@ -329,3 +341,67 @@ def boundary_ints():
     return [0, 1, 2, 0xFC, 0xFD, 0xFE, 0xFF, 0x100, 0xFFFF, 0x10000, 0xFFFFFFFF, 0x100000000,
             2**63 - 1, 2**63, 2**64 - 1, 2**64, 2**128 - 1, 2**128, 2**128 + 1, 2**255 - 1, 2**255,
             2**255 + 1, N - 2, N - 1, N, N + 1, 2**256 - 1]
+
+
+# ----------------------------------------------------------------------------- line coverage (sys.monitoring)
+def _resolve(path, qual):
+    """anchor (path under REPO, qualname) -> code object, or None"""
+    import importlib
+    mod = path[:-3].replace("/", ".")
+    try:
+        obj = importlib.import_module(mod)
+        for part in qual.split("."):
+            obj = getattr(obj, part) if not isinstance(obj, dict) else obj[part]
+    except Exception:
+        return None
+    for attr in ("__func__", "fget", "__wrapped__"):
+        if hasattr(obj, attr):
+            obj = getattr(obj, attr)
+    return getattr(obj, "__code__", None)
+
+
+def line_coverage(anchors, thunk):
+    """run thunk() with LINE monitoring restricted to the anchored functions; returns
+    {"path:qual": [lines_hit, lines_total]} — a lower bound (only what thunk re-executes)"""
+    import sys
+    mon = getattr(sys, "monitoring", None)
+    codes = {}
+    for path, qual in anchors:
+        c = _resolve(path, qual)
+        if c is not None:
+            codes[c] = f"{path}:{qual}"
+    if mon is None or not codes:
+        thunk()
+        return {}
+    TOOL = 3
+    hit = {c: set() for c in codes}
+    try:
+        mon.use_tool_id(TOOL, "verif-cov")
+    except ValueError:
+        thunk()
+        return {}
+
+    def on_line(code, line):
+        s = hit.get(code)
+        if s is not None:
+            s.add(line)
+        return mon.DISABLE
+
+    try:
+        mon.register_callback(TOOL, mon.events.LINE, on_line)
+        for c in codes:
+            mon.set_local_events(TOOL, c, mon.events.LINE)
+        thunk()
+    finally:
+        for c in codes:
+            try:
+                mon.set_local_events(TOOL, c, 0)
+            except Exception:
+                pass
+        mon.register_callback(TOOL, mon.events.LINE, None)
+        mon.free_tool_id(TOOL)
+    res = {}
+    for c, name in codes.items():
+        total = {l for _, _, l in c.co_lines() if l is not None and l != c.co_firstlineno}
+        res[name] = [len(hit[c] & total) if total else len(hit[c]), len(total)]
+    return res
